@@ -236,7 +236,7 @@ def _recording_noise(args):
         def summary(s):
             parser = replay_parser.ReplayParser(path, strict=False)
             info = parser._get_hidden_data(ReplayInfo(game=data.game, engine_data=data.engine_data, extra_data=data.extra_data, decrypted_data=s))
-            return json.dumps(info, cls=replay_parser.DefaultEncoder, sort_keys=True, default=str)
+            return json.dumps(info, cls=replay_parser.DefaultEncoder, ensure_ascii=False)   # the shipped encoder: no addresses, insertion order
         ref = summary(stream)
         for v in range(n_variants):
             cuts = sorted(rng.sample(offsets, min(len(offsets), rng.choice([1, 10, 1000]))))
